@@ -323,8 +323,12 @@ class C14(CheckBase):
                 # a token is named by its complete label or serial: a proper prefix of the serial (and a label that no token has) must delete nothing
                 root = os.path.join(ctx.sh.pwd(), "tokens")
                 before = sorted(os.listdir(root))
-                for what, args in (("serial-prefix", ["--serial", (serial_now or "")[:8]]), ("unknown-label", ["--token", t + "x"])):
-                    if what == "serial-prefix" and len(serial_now or "") < 16:
+                try:
+                    serial_txt = bytes.fromhex(serial_now or "").decode("latin1").strip()      # the shell reports the 16 serial characters hex-encoded
+                except ValueError:
+                    serial_txt = ""
+                for what, args in (("serial-prefix", ["--serial", serial_txt[:8]]), ("unknown-label", ["--token", t + "x"])):
+                    if what == "serial-prefix" and len(serial_txt) < 16:
                         continue
                     rc, outp = self.run_util(ctx, ["--delete-token"] + args)
                     ctx.count("util_delete_refusals_probed")
